@@ -284,4 +284,164 @@ theorem sgt_impl_eq_spec (a b : W) : sgtImpl a b = sgtSpec a b := by
   rw [i256Cmp_gt_iff]
   by_cases h : sInt a > sInt b <;> simp [h, boolW, ofN]
 
+/-! ### bitwise -/
+
+/-- AND is the bitwise conjunction. -/
+theorem and_impl_eq_spec (a b : W) : andImpl a b = andSpec a b := by
+  apply BitVec.eq_of_toNat_eq
+  have := (a &&& b).isLt
+  rw [BitVec.toNat_and] at this
+  simp only [andImpl, andSpec, BitVec.toNat_and]
+  rw [toNat_ofN_of_lt this]
+
+/-- OR is the bitwise disjunction. -/
+theorem or_impl_eq_spec (a b : W) : orImpl a b = orSpec a b := by
+  apply BitVec.eq_of_toNat_eq
+  have := (a ||| b).isLt
+  rw [BitVec.toNat_or] at this
+  simp only [orImpl, orSpec, BitVec.toNat_or]
+  rw [toNat_ofN_of_lt this]
+
+/-- XOR is the bitwise exclusive or. -/
+theorem xor_impl_eq_spec (a b : W) : xorImpl a b = xorSpec a b := by
+  apply BitVec.eq_of_toNat_eq
+  have := (a ^^^ b).isLt
+  rw [BitVec.toNat_xor] at this
+  simp only [xorImpl, xorSpec, BitVec.toNat_xor]
+  rw [toNat_ofN_of_lt this]
+
+/-- bit `i` of AND / OR / XOR is the and / or / xor of the operands' bits `i` (what `Nat`'s bitwise
+    operations in the spec mean). -/
+theorem bitwise_spec_bits (a b : W) (i : Nat) :
+    (andSpec a b).getLsbD i = (a.getLsbD i && b.getLsbD i) ∧
+    (orSpec a b).getLsbD i = (a.getLsbD i || b.getLsbD i) ∧
+    (xorSpec a b).getLsbD i = (a.getLsbD i != b.getLsbD i) := by
+  rw [← and_impl_eq_spec, ← or_impl_eq_spec, ← xor_impl_eq_spec]
+  simp [andImpl, orImpl, xorImpl]
+
+/-- NOT flips every bit: 2^256 − 1 − a. -/
+theorem not_impl_eq_spec (a : W) : notImpl a = notSpec a := by
+  apply BitVec.eq_of_toNat_eq
+  have := a.isLt
+  simp only [notImpl, notSpec, BitVec.toNat_not]
+  rw [toNat_ofN_of_lt (by omega)]
+
+/-- BYTE: the i-th byte from the most significant end, 0 for i ≥ 32. -/
+theorem byte_impl_eq_spec (i x : W) : byteImpl i x = byteSpec i x := by
+  have hi := i.isLt
+  unfold byteImpl byteSpec byteLE
+  by_cases h : 32 ≤ i.toNat
+  · have : 32#256 ≤ i := by simp [BitVec.le_def]; exact h
+    simp [this, h, ofN]
+  · have : ¬ 32#256 ≤ i := by simp [BitVec.le_def]; omega
+    simp only [this, h, if_false]
+    have e : i.toNat % 2 ^ 64 = i.toNat := Nat.mod_eq_of_lt (by omega)
+    rw [e, Nat.shiftRight_eq_div_pow]
+    apply BitVec.eq_of_toNat_eq
+    have hlt : x.toNat / 2 ^ (8 * (31 - i.toNat)) % 256 < 256 := Nat.mod_lt _ (by omega)
+    rw [toNat_ofN_of_lt (by omega), BitVec.toNat_ofNat, Nat.mod_eq_of_lt (by omega)]
+
+/-- SHL (EIP-145): multiplication by 2^shift mod 2^256; 0 when shift ≥ 256. -/
+theorem shl_impl_eq_spec (shift value : W) : shlImpl shift value = shlSpec shift value := by
+  unfold shlImpl shlSpec
+  by_cases h : 256 ≤ shift.toNat
+  · have : 256#256 ≤ shift := by simp [BitVec.le_def]; exact h
+    simp [this, h, ofN]
+  · have : ¬ 256#256 ≤ shift := by simp [BitVec.le_def]; omega
+    simp only [this, h, or_false, if_false]
+    by_cases hv : value = 0#256
+    · subst hv; simp [ofN]
+    · simp only [hv, if_false]
+      apply BitVec.eq_of_toNat_eq
+      rw [BitVec.toNat_shiftLeft, Nat.shiftLeft_eq, toNat_ofN]
+
+/-- SHR (EIP-145): floor division by 2^shift; 0 when shift ≥ 256. -/
+theorem shr_impl_eq_spec (shift value : W) : shrImpl shift value = shrSpec shift value := by
+  unfold shrImpl shrSpec
+  by_cases h : 256 ≤ shift.toNat
+  · have : 256#256 ≤ shift := by simp [BitVec.le_def]; exact h
+    simp [this, h, ofN]
+  · have : ¬ 256#256 ≤ shift := by simp [BitVec.le_def]; omega
+    simp only [this, h, or_false, if_false]
+    by_cases hv : value = 0#256
+    · subst hv; simp [ofN]
+    · simp only [hv, if_false]
+      apply BitVec.eq_of_toNat_eq
+      have hv' := value.isLt
+      have : value.toNat / 2 ^ shift.toNat ≤ value.toNat := Nat.div_le_self _ _
+      rw [BitVec.toNat_ushiftRight, Nat.shiftRight_eq_div_pow, toNat_ofN_of_lt (by omega)]
+
+theorem sarImpl_eq (shift v : W) :
+    sarImpl shift v =
+      if absW v = 0#256 ∨ 256#256 ≤ shift then (if isNeg v then wMax else 0#256)
+      else if isNeg v then i256Neg (((absW v - 1#256) >>> (shift.toNat % 2 ^ 32)) + 1#256)
+      else absW v >>> (shift.toNat % 2 ^ 32) := by
+  unfold sarImpl absW
+  simp only []
+
+theorem ofI_neg_one : ofI (-1) = wMax := by
+  apply BitVec.eq_of_toNat_eq
+  rw [toNat_ofI_of_neg (by omega) (by omega)]
+  simp [wMax]
+
+/-- SAR (EIP-145): floor division of the signed reading by 2^shift; 0 / −1 when shift ≥ 256. -/
+theorem sar_impl_eq_spec (shift v : W) : sarImpl shift v = sarSpec shift v := by
+  rw [sarImpl_eq]
+  unfold sarSpec
+  have hA := absW_le v
+  by_cases h : 256 ≤ shift.toNat
+  · have hs : 256#256 ≤ shift := by simp [BitVec.le_def]; exact h
+    simp only [hs, or_true, if_true, h]
+    cases hn : isNeg v
+    · rw [sInt_of_nonneg hn]
+      have : (0 : Int) ≤ ((absW v).toNat : Int) := by omega
+      simp [this, ofN]
+    · rw [sInt_of_neg hn]
+      have h0 : absW v ≠ 0#256 := by
+        intro e
+        rw [absW_eq_zero_iff] at e
+        subst e
+        rw [isNeg_zero] at hn
+        exact Bool.noConfusion hn
+      have := toNat_ne_zero_of_ne h0
+      have : ¬ (0 : Int) ≤ -((absW v).toNat : Int) := by omega
+      simp only [this, if_false, if_true, ofI_neg_one]
+  · have hs : ¬ 256#256 ≤ shift := by simp [BitVec.le_def]; omega
+    simp only [hs, or_false, h, if_false]
+    have hsh : shift.toNat % 2 ^ 32 = shift.toNat := Nat.mod_eq_of_lt (by omega)
+    rw [hsh]
+    have hP : 1 ≤ 2 ^ shift.toNat := Nat.one_le_two_pow
+    have hcast : (2 : Int) ^ shift.toNat = ((2 ^ shift.toNat : Nat) : Int) := by
+      rw [Int.natCast_pow]; rfl
+    rw [hcast]
+    generalize hPd : 2 ^ shift.toNat = P at hP
+    by_cases hz : absW v = 0#256
+    · have hv : v = 0#256 := (absW_eq_zero_iff v).mp hz
+      subst hv
+      have : sInt (0#256) = 0 := by simp [sInt]
+      simp [hz, isNeg_zero, this, ofI]
+    · simp only [hz, if_false]
+      have hA0 := toNat_ne_zero_of_ne hz
+      apply BitVec.eq_of_toNat_eq
+      cases hn : isNeg v
+      · rw [sInt_of_nonneg hn, ← Int.natCast_ediv]
+        simp only [Bool.false_eq_true, if_false, BitVec.toNat_ushiftRight, Nat.shiftRight_eq_div_pow, hPd]
+        have hq : (absW v).toNat / P ≤ (absW v).toNat := Nat.div_le_self _ _
+        generalize (absW v).toNat / P = q at hq
+        rw [toNat_ofI_of_nonneg (by omega) (by omega)]
+        omega
+      · rw [sInt_of_neg hn, neg_ediv_natCast (by omega) hP]
+        have hq : ((absW v).toNat - 1) / P ≤ (absW v).toNat - 1 := Nat.div_le_self _ _
+        have h1 : (absW v - 1#256).toNat = (absW v).toNat - 1 := by
+          rw [BitVec.toNat_sub]; simp; omega
+        have h2 : (((absW v - 1#256) >>> shift.toNat) + 1#256).toNat = ((absW v).toNat - 1) / P + 1 := by
+          rw [BitVec.toNat_add, BitVec.toNat_ushiftRight, Nat.shiftRight_eq_div_pow, hPd, h1]
+          generalize ((absW v).toNat - 1) / P = q at hq
+          simp; omega
+        simp only [if_true, i256Neg_toNat, h2]
+        generalize ((absW v).toNat - 1) / P = q at hq
+        have hne : q + 1 ≠ 0 := by omega
+        simp only [hne, if_false]
+        rw [toNat_ofI_neg_natCast (by omega) (by omega)]
+
 end BA.Evm
